@@ -9,7 +9,7 @@ R2 compaction is reachable and complete: request_more decides on live operands w
 R3 no allocation is sized by a number the input merely declares (shared with C05-R5; reported there).
 """
 from . import absint as A
-from .common import norm
+from .common import norm, family
 from .cfg import cfg
 from .sym import sym, short, mentions, subexprs
 from . import util, cg, guards
@@ -291,6 +291,36 @@ def run_r3(ctx, rule):
             rule.ok("%s never has more than one line end between the cursor and its look-ahead" % short(nid), fn.loc())
     rule.note("roots", n)
 
+def run_r6(ctx, rule):
+    """Whatever is looked at stays in the reader's buffer until the cursor moves past it.  Scans that look ahead in a
+    loop are the token functions (each scans one item, C10-R3 bounds them by a line); a loop in *parser-level* code
+    that looks ahead at a varying offset walks over many items without consuming them (skipping a section by scanning
+    it and advancing once at the end keeps the whole section in memory)."""
+    facts = ctx.facts
+    looks = (A.DR + "request_byte_at_offset", A.DR + "request_byte", A.DR + "request")
+    n_tok = 0
+    for fn in sorted(facts.fns.values(), key=lambda x: x.id):
+        if fn.crate not in FORMAT_CRATES:
+            continue
+        c = cfg(fn)
+        loops = c.loops()
+        if not loops:
+            continue
+        sy = sym(fn)
+        nid = norm(fn.id)
+        for bb, t in fn.calls():
+            if norm(util.cname(t)) not in looks or not any(bb in body for body in loops.values()):
+                continue
+            off = sy.operand(t["args"][1]) if len(t["args"]) > 1 else ("c", 0)
+            if off[0] == "c":
+                continue
+            if "::token::" in nid:
+                n_tok += 1
+                continue
+            advs = [b2 for b2, t2 in fn.calls() if norm(util.cname(t2)).startswith(A.DR + "advance") and any(bb in body and b2 in body for body in loops.values())]
+            rule.check(bool(advs), "%s/look-ahead-loop" % family(nid), "%s looks ahead at the varying offset %s inside a loop%s" % (short(nid), sy.show(off)[:40], " that also advances" if advs else " that never advances: everything it walks over stays buffered (a token function scans one item; this is parser-level code)"), fn.loc(bb))
+    rule.check(n_tok >= 8, "control/token-scans", "positive control: the look-ahead loops of the token modules are seen (%d sites)" % n_tok)
+
 
 def run(ctx):
     r1 = ctx.rule("C10-R1", "every growth of a buffer that outlives the call is dominated by a clear() of the same buffer (streaming entry points)", floor=9)
@@ -304,5 +334,11 @@ def run(ctx):
     from . import c05, taint as T
     r4 = ctx.rule("C10-R4", "no allocation or reservation is sized by a number the input merely declares (shared with C05-R5)", floor=1)
     c05.run_r5(ctx, r4, T.Taint(ctx.facts))
+    r6 = ctx.rule("C10-R6", "look-ahead loops at a varying offset live in the token functions only (one item each); parser-level loops consume as they go", floor=1)
+    run_r6(ctx, r6)
+    # R5: the stack is memory too: a parser that calls itself per skipped line or per item grows with the input
+    from .c05 import run_r1 as c05_r1
+    r5 = ctx.rule("C10-R5", "no recursion among the workspace's function instances: stack use does not grow with the number of items (shared with C05-R1)", floor=1)
+    c05_r1(ctx, r5)
     ctx.assume("peak heap, allocator behaviour and the constants of the bound are not decided")
     return "other", "necessary structural conditions for bounded streaming memory: buffer reset discipline, reachable and complete compaction, look-ahead bounded by a line", {}
